@@ -32,6 +32,9 @@ def gen(tier, rng):
                     if i < len(parts) - 1:
                         frames.extend(ctl)
                 yield frames
+    # no bound on the number of fragments of one message, nor on the control frames swallowed inside one receive call
+    yield [(2, 0, b"a")] + [(0, 0, bytes([i % 251])) for i in range(1500)] + [(0, 1, b"z")]
+    yield [(1, 0, b"t")] + [(10, 1, b"o%d" % (i % 7)) for i in range(1300)] + [(0, 1, b"!")]
     # sequences of several messages
     for _ in range(300 if tier == "quick" else 20000):
         yield legal_stream(rng, max_msgs=4 if tier != "quick" else 3, max_frags=maxfrag, max_ctl=2 if tier == "quick" else 3,
@@ -41,6 +44,12 @@ def gen(tier, rng):
 def judge(T, frames, sp, res, fire, skip, sc):
     """Data deliveries of rd0 calls against the spec's reassembly / per-fragment list."""
     if sp["legal"] != "1":
+        return
+    unexpected = [r for r in res if r.startswith("raise:") and r not in ("raise:Payload", "raise:ConnClosed")]
+    if unexpected:
+        T.fail("spec", sc, "a legal stream is delivered without any other exception", str(unexpected[:2]),
+               {"site": "recv_data_frame", "cls": "unexpected-exception", "exn": unexpected[0][6:]},
+               what="a receive call on a legal frame stream failed with an exception that is neither a payload error nor the end of the stream")
         return
     got = [r for r in res if r.startswith("ok:") and r.split(":")[1] in ("0", "1", "2")]
     got = [(r.split(":")[1], r.split(":")[2], ":".join(r.split(":")[3:])) for r in got]    # (op, f<fin><opc>, digest)
